@@ -14,9 +14,11 @@
      - parameter values: Base/Package.v holds the TEXT harness/impl/designlib.py:pval_str prints for a ParamValue
        ("int:5", "dbl:0x1.8p+1", "str:..", "lit:..", "pre:MILLI:i5", "pre:UNIT:d<hex>", "pre:UNIT:s<text>");
        parse_pvalue reads it back.  Integers are read strictly (Python's str(int): the text must print back).
-       NOT read: the decimal text of a prefixed number with a string value ("pre:P:s1.5") is kept as NRaw - C11RoundTrip's
-       NDec needs the (sign, coefficient, exponent) triple of the Decimal, which Base/Package.v does not carry; the round-trip
-       model refuses NRaw, so such parameters make the hypothesis xinfo_c11_ok false (the theorems claim nothing there).
+       The decimal text of a prefixed number with a string value ("pre:P:s1.5") is read by parse_dec into the Decimal's
+       (sign, coefficient, exponent) triple - strictly: the text must be what that Decimal prints as (dec_str = Python's
+       Decimal.__str__; the C11 harness demands the same: str(Decimal(s)) == s), otherwise it stays NRaw, which the round-trip
+       model refuses (xinfo_c11_ok false: the theorems claim nothing there).  parse_pvalue is validated against the live
+       ParamValue messages by the stream `ptext` of the tie (harness/impl/c11e.py).
        Text that is no pval_str output becomes VUnset (never normal);
      - parameter `desc`, module / external-module `parameters`, `desc`: in neither type. *)
 Require Import Hdl21.Base.PyInt Hdl21.Spec.PySlice Hdl21.Model.Slice Hdl21.Model.Resolve Hdl21.Base.Design
@@ -33,6 +35,63 @@ Definition parse_Z (s : string) : option Z :=
   match NilZero.int_of_string s with
   | Some i => let z := Z.of_int i in
               if String.eqb (NilZero.string_of_int (Z.to_int z)) s then Some z else None
+  | None => None
+  end.
+
+(* ---- Decimal text: Python's str(Decimal) of a finite Decimal, and its strict reader ---- *)
+Definition is_digit (c : ascii) : bool := let n := nat_of_ascii c in (48 <=? n)%nat && (n <=? 57)%nat.
+Fixpoint all_digits (s : string) : bool := match s with EmptyString => true | String c r => is_digit c && all_digits r end.
+(* the longest prefix of digits, and the rest *)
+Fixpoint span_digits (s : string) : string * string :=
+  match s with
+  | EmptyString => (EmptyString, EmptyString)
+  | String c r => if is_digit c then let '(a, b) := span_digits r in (String c a, b) else (EmptyString, s)
+  end.
+Definition digits_N (s : string) : option N :=
+  match s with EmptyString => None | _ => if all_digits s then option_map N.of_uint (NilZero.uint_of_string s) else None end.
+Definition N_str (n : N) : string := NilZero.string_of_uint (N.to_uint n).
+Fixpoint zeros (n : nat) : string := match n with O => EmptyString | S k => String "0" (zeros k) end.
+Fixpoint take (n : nat) (s : string) : string := match n, s with S k, String c r => String c (take k r) | _, _ => EmptyString end.
+Fixpoint drop (n : nat) (s : string) : string := match n, s with S k, String _ r => drop k r | _, _ => s end.
+Definition zlenS (s : string) : Z := Z.of_nat (String.length s).
+
+(* decimal.Decimal.__str__ (scientific notation, not engineering) of a finite Decimal *)
+Definition dec_str (d : Dec.dec) : string :=
+  let ds := N_str (dcoef d) in
+  let leftdigits := dexp d + zlenS ds in
+  let dotplace := if (dexp d <=? 0) && (-6 <? leftdigits) then leftdigits else 1 in
+  let body :=
+    if dotplace <=? 0 then "0." ++ zeros (Z.to_nat (- dotplace)) ++ ds
+    else if zlenS ds <=? dotplace then ds ++ zeros (Z.to_nat (dotplace - zlenS ds))
+    else take (Z.to_nat dotplace) ds ++ "." ++ drop (Z.to_nat dotplace) ds in
+  let e := leftdigits - dotplace in
+  let ex := if e =? 0 then "" else "E" ++ (if e <? 0 then "-" else "+") ++ N_str (Z.to_N (Z.abs e)) in
+  (if dsign d then "-" else "") ++ body ++ ex.
+
+(* [-]digits[.digits][E(+|-)digits] -> (sign, coefficient, exponent) *)
+Definition parse_dec_loose (s : string) : option Dec.dec :=
+  let '(sg, s1) := match s with String "-" r => (true, r) | _ => (false, s) end in
+  let '(ip, s2) := span_digits s1 in
+  let '(fp, s3) := match s2 with String "." r => span_digits r | _ => (EmptyString, s2) end in
+  match digits_N (ip ++ fp) with
+  | None => None
+  | Some c =>
+      match s3 with
+      | EmptyString => Some (mkDec sg c (- zlenS fp))
+      | String "E" (String sc r) =>
+          match digits_N r with
+          | Some e => if Ascii.eqb sc "+" then Some (mkDec sg c (Z.of_N e - zlenS fp))
+                      else if Ascii.eqb sc "-" then Some (mkDec sg c (- Z.of_N e - zlenS fp)) else None
+          | None => None
+          end
+      | _ => None
+      end
+  end.
+
+(* strictly: the text must be what the Decimal prints as (the harness's `str(Decimal(s)) == s`) *)
+Definition parse_dec (s : string) : option Dec.dec :=
+  match parse_dec_loose s with
+  | Some d => if String.eqb (dec_str d) s then Some d else None
   | None => None
   end.
 
@@ -60,7 +119,7 @@ Definition parse_pvalue (s : string) : pvalue :=
         | Some (pre, String k txt) =>
             if Ascii.eqb k "i"%char then match parse_Z txt with Some z => VPre pre (NInt z) | None => VUnset end
             else if Ascii.eqb k "d"%char then VPre pre (NDbl txt)
-            else if Ascii.eqb k "s"%char then VPre pre (NRaw txt)
+            else if Ascii.eqb k "s"%char then VPre pre (match parse_dec txt with Some d => NDec d | None => NRaw txt end)
             else VUnset
         | _ => VUnset
         end
